@@ -139,6 +139,13 @@ def cases(draw):
     elif draw(st.integers(0, 3)) == 0 and len(g.vars) >= 2:
         pair = draw(st.lists(st.sampled_from(g.vars), min_size=2, max_size=2, unique=True))
         lines.append('$d %s $.' % ' '.join(pair))
+    if draw(st.integers(0, 2)) == 0:
+        # a variable declared in a second $v statement *after* the axioms, with its floating hypothesis there: lemmas over it
+        # need that late $f in their slice, in its original position (last)
+        lines.append('$v th $.')
+        lines.append('th-is-pattern $f #Pattern th $.')
+        g.vars = list(g.vars) + ['th']; g.nvars += 1
+        g.float_order = list(g.float_order) + ['th']
     lemmas = []
     for i in range(draw(st.integers(1, 5))):
         label = 'lem-%d' % i
